@@ -144,16 +144,16 @@ func c11OracleEnv() string {
 
 // is the character an ordinary character of the form (the property's grammar, written independently
 // of the model: a quote / backtick ends the literal, a backslash starts an escape in "..." forms,
-// { starts a hole in interpolated forms; a raw newline inside "..." is the known hazard)
+// { starts a hole in interpolated forms; a raw newline is an ordinary character of every form)
 func c11OrdinaryChar(form string, ch string) bool {
 	if ch == "\x00" {
 		return false
 	}
 	switch form {
 	case "str":
-		return ch != "\"" && ch != "\\" && ch != "\n"
+		return ch != "\"" && ch != "\\"
 	case "istr":
-		return ch != "\"" && ch != "\\" && ch != "\n" && ch != "{"
+		return ch != "\"" && ch != "\\" && ch != "{"
 	case "raw":
 		return ch != "`"
 	}
@@ -239,9 +239,6 @@ func c11Gen(c *Ctx, rng *Rng) []*c11Case {
 		for _, x := range c11Singles() {
 			if !c11OrdinaryChar(f, x) {
 				c.Count("single_not_an_ordinary_character_of_the_form")
-				if x == "\n" {
-					cases = append(cases, c11MkRawBody(f, "hazard-newline", "a\nb"))
-				}
 				continue
 			}
 			cases = append(cases, c11Mk(f, "single", []c11Piece{ch(x)}))
@@ -254,6 +251,14 @@ func c11Gen(c *Ctx, rng *Rng) []*c11Case {
 			}
 		}
 		cases = append(cases, c11Mk(f, "empty", nil))
+		// raw newlines: alone (covered by the singles), repeated, next to the \n escape, at both ends
+		cases = append(cases, c11Mk(f, "newline", []c11Piece{ch("\n"), ch("a"), ch("\n"), ch("\n"), ch("b"), ch("\n")}))
+		if !c11IsRaw(f) {
+			cases = append(cases, c11Mk(f, "newline", []c11Piece{ch("\n"), {"esc", "n"}, ch("\n"), {"esc", "\\"}, ch("n"), ch("\n")}))
+		}
+		if c11IsInterp(f) {
+			cases = append(cases, c11Mk(f, "newline", []c11Piece{{"hole", "a"}, ch("\n"), {"hole", "s"}, ch("\n"), ch("%"), ch("\n")}))
+		}
 		// every escape of the grammar
 		if !c11IsRaw(f) {
 			for _, e := range []string{"n", "t", "\\", "\""} {
@@ -289,7 +294,7 @@ func c11Gen(c *Ctx, rng *Rng) []*c11Case {
 	for _, p := range []struct{ f, body string }{
 		{"str", `a\qb`}, {"str", `\x41\101`}, {"str", `\'`}, {"str", `\r\a\b\f\v`}, {"str", `\u00e9`}, {"str", `\x4`}, {"str", `\400`},
 		{"istr", `\%d`}, {"istr", `{a`}, {"istr", `{}`}, {"istr", `{a+1}`}, {"istr", `{zz}`}, {"istr", `\x25s{a}`}, {"istr", `{a}}`},
-		{"iraw", `{a`}, {"iraw", `\{a}`}, {"iraw", `{a b}`}, {"iraw", "{\n}"}, {"raw", "a\rb"}, {"str", "a\rb"},
+		{"iraw", `{a`}, {"iraw", `\{a}`}, {"iraw", `{a b}`}, {"iraw", "{\n}"}, {"raw", "a\rb"}, {"str", "a\rb"}, {"str", "a\\\nb"}, {"istr", "a\\\nb"},
 	} {
 		cases = append(cases, c11MkRawBody(p.f, "probe", p.body))
 	}
@@ -592,15 +597,6 @@ func runC11(c *Ctx) {
 		}
 		m := c11Ask(or, k)
 		c.Compared(1)
-		if k.Kind == "hazard-newline" {
-			// a raw newline inside "..." / $"...": the model (Go rejects a newline in an interpreted
-			// string literal) and the implementation must still agree; reported as a known finding
-			if o.ok && !o.evalOK && m.run == "COMPILE_ERROR" {
-				c.Known("C11-raw-newline-in-quoted-literal")
-				c.Count("hazard_newline_in_quoted_literal_is_a_go_compile_error")
-				continue
-			}
-		}
 		bad := c11Property(k, o)
 		disagree := ""
 		switch {
@@ -608,7 +604,7 @@ func runC11(c *Ctx) {
 			disagree = "the model's grammar (lex/ok_piece) rejects a body the generator built from admissible pieces"
 		case k.Grammar && m.denote != c11Meaning(k.Pieces):
 			disagree = fmt.Sprintf("the model's denote %q differs from the meaning computed from the pieces %q", m.denote, c11Meaning(k.Pieces))
-		case !k.Grammar && m.inGram && k.Kind != "hazard-newline":
+		case !k.Grammar && m.inGram:
 			// fine: a probe may happen to be in the grammar; then the model's denote is the expectation
 			if o.ok && o.evalOK && o.val != m.denote {
 				disagree = fmt.Sprintf("in-grammar probe evaluates to %q, model denote %q", o.val, m.denote)
@@ -687,7 +683,7 @@ func c11Batches(c *Ctx, ks []*c11Case) {
 		var sel, other []*c11Case
 		for _, k := range ks {
 			switch k.Kind {
-			case "single", "escape", "brace", "hole", "empty", "brace-hole", "escape-brace", "hole-percent":
+			case "single", "escape", "brace", "hole", "empty", "brace-hole", "escape-brace", "hole-percent", "newline":
 				sel = append(sel, k)
 			case "random":
 				other = append(other, k)
